@@ -102,6 +102,33 @@ func c10Programs(depth int) []*gen.Program {
 			}
 		}
 	}
+	// named loops are loops too: at top level, inside an inline subroutine (call depth 1), inside a stored pattern,
+	// and inside an inline subroutine that is called again from a loop
+	if depth >= 2 {
+		for _, f := range forms {
+			if f.Form == "maybe" {
+				continue // the grammar has no `maybe ... named`
+			}
+			for _, b := range blocks {
+				nl := f
+				nl.Body = b
+				nl.Name = "n"
+				x := gen.Lit{S: "b"}
+				mk(nl)
+				mk(x, nl)
+				mk(gen.SubDef{Name: "s", Body: []gen.Node{x, nl}})
+				mk(gen.SubDef{Name: "s", Body: []gen.Node{x, nl}}, gen.Loop{Min: 0, Max: -1, Form: "atleast", Body: gen.SubCall{Name: "s"}})
+				progs = append(progs, &gen.Program{Globals: []gen.Global{{Name: "g", Body: []gen.Node{x, nl}}},
+					Commands: []gen.Command{{Amount: gen.Amount{Kind: "all"}, Body: []gen.Node{gen.GlobalRef{Name: "g"}, gen.Loop{Min: 0, Max: 1, Form: "maybe", Body: gen.GlobalRef{Name: "g"}}}}}})
+				// a named loop around an unnamed nullable loop, inside a subroutine
+				inner := gen.Loop{Min: 0, Max: -1, Form: "atleast", Body: b}
+				nl2 := f
+				nl2.Body = gen.Seq{Items: []gen.Node{inner}}
+				nl2.Name = "n"
+				mk(gen.SubDef{Name: "s", Body: []gen.Node{x, nl2}})
+			}
+		}
+	}
 	if depth >= 3 {
 		for _, f := range forms {
 			for i, l := range l2 {
@@ -139,7 +166,7 @@ func C10(r *drv.Run) {
 	progs := c10Programs(depth)
 	texts := allTexts("ab\n", tlen)
 	r.Exhaustive = true
-	r.Rule = fmt.Sprintf("bounded-progress form of termination: every Run must return within %d VM steps (hook H1), a budget fixed at >= 100x the largest step count the enumerated scope needs on the unchanged tree. Scope enumerated completely: all programs of loop-nesting depth <= %d over nullable building blocks (literal, not-literal, any, line/word/file anchors and their negations, the empty group, not-in, whole word/line; loop forms maybe, at least 0, at most 2, between 0 and 2, at least 1, greedy and fewest; every level-1 program also under skip / skip-take / top / take / last clauses, as find and as replace; loops over loops, over (block loop) and over (loop or block); nullable bodies in subroutines called from loops; recursion guarded by each kind of consuming element: literal, not-literal, any, class, negated class, not-in, in) x all %d inputs over {a,b,\\n} up to length %d; plus seeded random deeper programs on inputs <= 8 bytes, a third of them drawing on every construct (regex literals, named loops, whole-*, amount clauses, replace) with now and then one name bound both by a capture and by a named loop (there an over-budget run is skipped, not judged; what counts there: crashes, and the step monitor's no-progress verdict - one instruction executed 20 000 times in a row in the same attempt at the same input offset with unchanged backtrack/call/loop depths). Non-trivial = the program contains an optional loop whose body can match the empty string and the run executed a loop instruction; distinct by (program, input).", budget, depth, len(texts), tlen)
+	r.Rule = fmt.Sprintf("bounded-progress form of termination: every Run must return within %d VM steps (hook H1), a budget fixed at >= 100x the largest step count the enumerated scope needs on the unchanged tree. Scope enumerated completely: all programs of loop-nesting depth <= %d over nullable building blocks (literal, not-literal, any, line/word/file anchors and their negations, the empty group, not-in, whole word/line; loop forms maybe, at least 0, at most 2, between 0 and 2, at least 1, greedy and fewest; every level-1 program also under skip / skip-take / top / take / last clauses, as find and as replace; loops over loops, over (block loop) and over (loop or block); nullable bodies in subroutines called from loops; named loops with nullable bodies at top level, inside an inline subroutine, inside a stored pattern, inside a subroutine called from a loop; recursion guarded by each kind of consuming element: literal, not-literal, any, class, negated class, not-in, in) x all %d inputs over {a,b,\\n} up to length %d; plus seeded random deeper programs on inputs <= 8 bytes, a third of them drawing on every construct (regex literals, named loops, whole-*, amount clauses, replace) with now and then one name bound both by a capture and by a named loop (there an over-budget run is skipped, not judged; what counts there: crashes, and the step monitor's no-progress verdict - one instruction executed 20 000 times in a row in the same attempt at the same input offset with unchanged backtrack/call/loop depths). Non-trivial = the program contains an optional loop whose body can match the empty string and the run executed a loop instruction; distinct by (program, input).", budget, depth, len(texts), tlen)
 	r.Assumptions = []string{
 		"unbounded 'always terminates' is restated as 'returns within the step budget'; max observed steps are in the evidence so the margin is visible",
 		"recursion only behind a consumed byte; no process-code loops",
